@@ -25,9 +25,9 @@ class C12(Check):
     quick_examples = 3000
     thorough_examples = 40000
     rule = (
-        "cases: stacks of 0..3 middlewares of kinds pass-through / short-circuit / request-rewriting (other method and params, same id) / "
-        "response-rewriting x error-handler tables (none, generic only, per-code only, both, up to 2 handlers per key; kinds identity / "
-        "annotate / replace-by-another-code; keys incl. the replacement codes themselves) x request documents over the 15-method registry "
+        "cases: stacks of 0..3 middlewares of kinds pass-through / short-circuit (answering calls only; answering every element incl. notifications; returning 'no response' for every element incl. calls) / request-rewriting (other method and params, same id) / "
+        "response-rewriting x error-handler tables (none, generic only, per-code only, both, up to 3 handlers per key; kinds identity / "
+        "annotate / replace-by-another-code / the same callable registered again under the same or another key; keys incl. the replacement codes themselves) x request documents over the 15-method registry "
         "(successes, every failure class incl. an internal error raised outside the method body by a class based view's constructor, notifications, failing notifications, batches, rejected documents, non-JSON) x scripted method "
         "failures x sync / async dispatcher. Oracle: the reference server extended with the stack semantics predicts the response "
         "document, the executions and the exact event log (middleware enter events with method / id / params / context identity, handler "
@@ -39,20 +39,22 @@ class C12(Check):
         "async: no handler suspends in this check, so batch elements run to completion in request order (interleavings are C10's subject)",
     ]
     trusted_base = ['pbt/stack.py reference model', 'pbt/refserver.py']
-    required_classes = ['mw/0', 'mw/1', 'mw/2', 'mw/3', 'mw/short-circuited', 'mw/kind/rewrite-request', 'mw/kind/rewrite-response',
+    required_classes = ['mw/0', 'mw/1', 'mw/2', 'mw/3', 'mw/short-circuited', 'mw/answered-notification', 'mw/swallowed-call', 'handlers/same-callable-twice', 'mw/kind/rewrite-request', 'mw/kind/rewrite-response',
                         'handlers/none', 'handlers/generic', 'handlers/per-code', 'handlers/ran', 'handlers/replace-ran',
                         'doc/batch-accepted', 'doc/not-json', 'doc/batch-rejected/invalid-element', 'notification/raises-exception', 'call/internal-error',
                         'dispatcher/sync', 'dispatcher/async', 'async/sequential-batch']
 
     def strategy(self, tier: str):
         s_mw = st.one_of(
-            st.just({'kind': 'pass'}), st.just({'kind': 'pass'}), st.just({'kind': 'short'}), st.just({'kind': 'rewrite-response'}),
+            st.just({'kind': 'pass'}), st.just({'kind': 'pass'}), st.just({'kind': 'pass'}), st.just({'kind': 'short'}), st.just({'kind': 'rewrite-response'}),
+            st.just({'kind': 'rewrite-response'}), st.just({'kind': 'answer-all'}), st.just({'kind': 'swallow'}),
             st.builds(lambda m, p: {'kind': 'rewrite-request', 'method': m, 'params': p},
                       st.sampled_from(['echo', 'noargs', 'boom', 'rpc_err', 'nope', 'ret']),
                       st.sampled_from([[], [1], [1, 2, 3], {'a': 1}, {'x': 5}, {'zz': 0}])),
         )
-        s_h = st.sampled_from([{'kind': 'identity'}, {'kind': 'annotate'}, {'kind': 'annotate'}, {'kind': 'replace'}])
-        s_hs = st.lists(s_h, max_size=2)
+        s_h = st.sampled_from([{'kind': 'identity'}, {'kind': 'annotate'}, {'kind': 'annotate'}, {'kind': 'replace'}, {'kind': 'replace'},
+                               {'kind': 'reuse', 'of': 0}, {'kind': 'reuse', 'of': 1}])
+        s_hs = st.lists(s_h, max_size=3)
         s_table = st.one_of(
             st.none(),
             st.builds(lambda g, cs: {'generic': g, 'codes': [[c, h] for c, h in cs]}, s_hs,
@@ -149,6 +151,14 @@ class C12(Check):
             kinds = [h['kind'] for h in tb.get('generic', [])] + [h['kind'] for _, hs in tb.get('codes', []) for h in hs]
             if 'replace' in kinds:
                 classes.append('handlers/replace-ran')
+        ehs = [e[1] for e in exp_events if e[0] == 'eh']
+        # the same callable ran more than once for ONE request element (events of one element are contiguous and share method + id)
+        per_element: Dict[Any, List[int]] = {}
+        for k, e in enumerate(exp_events):
+            if e[0] == 'eh':
+                per_element.setdefault((e[4], repr(e[5]), tuple(x for x in range(k) if exp_events[x][0] == 'mw').__len__()), []).append(e[1])
+        if any(len(v) != len(set(v)) for v in per_element.values()):
+            classes.append('handlers/same-callable-twice')
         nontrivial = n_mw >= 2 or n_eh >= 2 or 'mw/short-circuited' in classes or any(
             m['kind'] in ('rewrite-request', 'rewrite-response') for m in spec['middlewares']) and bool(exp_events)
         return Outcome(discs, bool(nontrivial), sorted(set(classes)))
@@ -159,7 +169,7 @@ CHECK = C12()
 MANIFEST = dict(
     technique="property-based testing (Hypothesis) of generated middleware stacks and error-handler tables against a reference model predicting the response, the executions and the exact event log",
     level_text=(
-        "Generated stacks (0..3 middlewares of four kinds) and handler tables (generic / per-code, identity / annotate / replace) are "
+        "Generated stacks (0..3 middlewares of six kinds) and handler tables (generic / per-code, identity / annotate / replace / a callable registered more than once) are "
         "attached to both dispatchers and driven with generated request documents; an independent model of the stack semantics predicts "
         "the event sequence of instrumented middlewares / handlers, the executions and the response document. Sampling over a bounded "
         "configuration space; suspension-free handlers only (interleavings are covered by C10)."
